@@ -2,5 +2,5 @@ SPECIFICATION Spec
 CONSTANTS M = 8
  MaxK = 5
  Pool = {0,1,2,3,4,5,17,100,129,200,253,254}
-INVARIANTS EncIsGenerator VdmInverse DecodeOK
+INVARIANTS EncIsGenerator VdmInverse DecodeOK DiagonalPivotsSuffice
 CHECK_DEADLOCK FALSE
